@@ -8,6 +8,13 @@ next(next(D)), ... until an error target is reached; the chain and the final
 error are compared with the reference model (select over the strictly more
 general definitions), for every tuple of classes.  A second update without
 change must leave the chains unchanged.
+
+Definitions are written in one of several styles (the ways the API offers to
+obtain next): define_method, define_method in a method container, and - with
+the method declared through the method<> template - add_definition of a
+container that inherits use_next<>, that declares its own static next, that
+inherits method::next<>, or add_function with an explicit pointer to the next
+variable (optionally instantiated a second time without it).
 """
 import hashlib
 import json
@@ -35,6 +42,11 @@ def gen_case(rng):
             defs.append(list(t))
     return {"n": n, "bases": bases, "vp": vp, "defs": defs,
             "container": rng.random() < 0.4,
+            "per_class_reg": rng.random() < 0.3,
+            "style": rng.choice(["macro", "macro", "macro_inline", "use_next",
+                                 "next_member",
+                                 "next_alias", "add_function",
+                                 "add_function_twice"]),
             "policy": rng.choice(["debug", "release"]),
             "extra_int": rng.random() < 0.3}
 
@@ -120,14 +132,29 @@ def emit(case):
             else ""
         out.append("struct K%d%s { virtual ~K%d() {} long pad%d = %d; };" % (
             c, inh, c, c, c))
-    out.append("register_classes(%s, pol);" % ", ".join(
-        "K%d" % c for c in range(n)))
+    if case.get("per_class_reg"):
+        # one register_class per class, direct bases only, any order
+        for c in reversed(range(n)):
+            out.append("register_class(%s, pol);" % ", ".join(
+                ["K%d" % c] + ["K%d" % b for b in case["bases"][c]]))
+    else:
+        out.append("register_classes(%s, pol);" % ", ".join(
+            "K%d" % c for c in range(n)))
     params = ["virtual_<K%d&>" % p for p in case["vp"]]
     if case["extra_int"]:
         params.insert(1 if len(params) > 1 else 0, "int")
-    out.append("declare_method(void, walk, (%s), pol);" % ", ".join(params))
+    style = case.get("style", "macro")
+    if style in ("macro", "macro_inline"):
+        out.append("declare_method(void, walk, (%s), pol);" %
+                   ", ".join(params))
+    else:
+        out.append("struct walk_key;")
+        out.append("using walk_m = method<walk_key, void(%s), pol>;" %
+                   ", ".join(params))
+        out.append("template<class... T> void walk(T&&... a) { "
+                   "walk_m::fn(std::forward<T>(a)...); }")
     out.append("static std::string g_chain;")
-    if case["container"]:
+    if (style == "macro" and case["container"]) or style == "macro_inline":
         out.append("method_container(defs);")
     for d, t in enumerate(case["defs"]):
         ps = ["K%d& a%d" % (c, k) for k, c in enumerate(t)]
@@ -137,12 +164,37 @@ def emit(case):
             ps.insert(pos, "int x")
             args.insert(pos, "x")
         body = "{ g_chain += \"%d>\"; next(%s); }" % (d, ", ".join(args))
-        if case["container"]:
+        sig = ", ".join(ps)
+        if style == "macro_inline":
+            out.append("define_method_inline(defs, void, walk, (%s)) %s" % (
+                sig, body))
+        elif style == "macro" and case["container"]:
             out.append("define_method(defs, void, walk, (%s)) %s" % (
-                ", ".join(ps), body))
+                sig, body))
+        elif style == "macro":
+            out.append("define_method(void, walk, (%s)) %s" % (sig, body))
+        elif style == "use_next":
+            out.append("struct def%d : walk_m::use_next<def%d> { static void "
+                       "fn(%s) %s };" % (d, d, sig, body))
+            out.append("static walk_m::add_definition<def%d> reg%d;" % (d, d))
+        elif style == "next_member":
+            out.append("struct def%d { static walk_m::next_type next; static "
+                       "void fn(%s) %s };" % (d, sig, body))
+            out.append("walk_m::next_type def%d::next;" % d)
+            out.append("static walk_m::add_definition<def%d> reg%d;" % (d, d))
+        elif style == "next_alias":
+            out.append("struct def%d : walk_m::next<def%d> { static void "
+                       "fn(%s) %s };" % (d, d, sig, body))
+            out.append("static walk_m::add_definition<def%d> reg%d;" % (d, d))
         else:
-            out.append("define_method(void, walk, (%s)) %s" % (
-                ", ".join(ps), body))
+            out.append("static walk_m::next_type next%d;" % d)
+            out.append("static void fn%d(%s) { g_chain += \"%d>\"; "
+                       "next%d(%s); }" % (d, sig, d, d, ", ".join(args)))
+            out.append("static walk_m::add_function<fn%d> reg%d(&next%d);" % (
+                d, d, d))
+            if style == "add_function_twice":
+                out.append("static walk_m::add_function<fn%d> again%d;" % (
+                    d, d))
     out.append("static std::string record() {")
     out.append("    std::string r;")
     for c in range(n):
@@ -224,7 +276,7 @@ def _hash(case):
 
 
 def check(tier, seed, scratch, inc, ncpu, pool_map, prop="C03"):
-    n = 8 if tier == "quick" else 96
+    n = 16 if tier == "quick" else 160
     rng = random.Random(seed * 49979687 + (1 if tier == "quick" else 2))
     cases = [gen_case(rng) for _ in range(n)]
     results = pool_map(run_case, [(c, scratch, "c03_%d" % i, inc)
@@ -235,7 +287,10 @@ def check(tier, seed, scratch, inc, ncpu, pool_map, prop="C03"):
         res["evaluations"] += 1
         for label, flag in (("next_program", True),
                             ("next_program_method_container",
-                             case["container"]),
+                             case["container"] and
+                             case.get("style", "macro") == "macro"),
+                            ("next_program_style_" +
+                             case.get("style", "macro"), True),
                             ("next_chain_of_3+_definitions", long_chain)):
             if flag:
                 res["classes"][label] = res["classes"].get(label, 0) + 1
@@ -271,4 +326,6 @@ def shrinks(case):
         out.append(dict(case, container=False))
     if case["extra_int"]:
         out.append(dict(case, extra_int=False))
+    if case.get("style", "macro") != "macro":
+        out.append(dict(case, style="macro"))
     return out
